@@ -441,6 +441,7 @@ Section WithCore.
     ct_tfm_pvalue : forall s x, exists v, c_tfm_pvalue K s x = COk v;
     ct_tfm_score : forall s x, exists v, c_tfm_score K s x = COk v;
     ct_scan : forall s q t b, exists v, c_scan K s q t b = COk v;
+    ct_dist_sf : forall s, exists v, c_dist_sf K s = COk v;
     ct_read : forall f a bs, ~ In (RPanic CM FM) (c_read K f a bs)
   }.
 
@@ -466,7 +467,7 @@ Section WithCore.
                               | apply (ct_max_score CT) | apply (ct_configure CT) | apply (ct_score CT)
                               | apply (ct_threshold CT) | apply (ct_max CT) | apply (ct_argmax CT)
                               | apply (ct_dist_pvalue CT) | apply (ct_dist_score CT) | apply (ct_tfm_pvalue CT)
-                              | apply (ct_tfm_score CT) | apply (ct_scan CT)]
+                              | apply (ct_tfm_score CT) | apply (ct_scan CT) | apply (ct_dist_sf CT)]
       | (apply obind_np; [|intros ? _]) ].
 
     Lemma glue_background_np a bg : glue_background K a bg <> Panic.
@@ -597,7 +598,20 @@ Section WithCore.
       - apply obind_np; [apply Hf; reflexivity|]. intros k _.
         destruct (load_items K a (c_read K k a bytes)); discriminate.
       - apply obind_np; [apply Hf; reflexivity | discriminate].
+      - apply obind_np; [apply Hf; reflexivity | discriminate].
     Qed.
+
+    Lemma glue_encode_np sequence protein : glue_encode K sequence protein <> Panic.
+    Proof. unfold glue_encode. repeat step. Qed.
+
+    Lemma glue_enc_stripe_np a s : glue_enc_stripe K a s <> Panic.
+    Proof. unfold glue_enc_stripe. repeat step. Qed.
+
+    Lemma glue_copy_np o : glue_copy CM WM SM SQ SC o <> Panic.
+    Proof. destruct o; discriminate. Qed.
+
+    Lemma glue_dist_np s : glue_dist K s <> Panic.
+    Proof. unfold glue_dist. destruct (ordered_ok _ _); repeat step. Qed.
 
     (* no step of any history ends in a PanicException *)
     Lemma run_call_np st c : fst (run_call K st c) <> Done _ _ _ _ _ Panic.
@@ -648,6 +662,25 @@ Section WithCore.
         destruct (nth_error ms idx); try discriminate.
         destruct (motif_part _ _ _ _ _ m which); [apply Hstore|]; discriminate.
       - destruct (lookup _ _ _ _ _ st self); discriminate.
+      - apply Hstore, glue_encode_np.
+      - destruct (lookup _ _ _ _ _ st self) as [[]|]; try discriminate. apply Hstore, glue_enc_stripe_np.
+      - destruct (lookup _ _ _ _ _ st self); try discriminate. apply Hstore, glue_copy_np.
+      - destruct (lookup _ _ _ _ _ st self); try discriminate.
+        destruct other; try (destruct (glue_eq K o None); discriminate).
+        destruct (lookup _ _ _ _ _ st slot); try discriminate.
+        destruct (glue_eq K o _); discriminate.
+      - destruct (lookup _ _ _ _ _ st self) as [[]|]; discriminate.
+      - destruct (lookup _ _ _ _ _ st self) as [[]|]; try discriminate. apply Hstore, glue_dist_np.
+      - apply Hstore; discriminate.
+      - destruct (lookup _ _ _ _ _ st file) as [[]|]; try discriminate. apply Hstore.
+        unfold glue_loader_new. apply obind_np; [destruct format; repeat step|]. intros f _.
+        apply obind_np; [apply protein_flag_np|]. intros a _.
+        apply obind_np; [|discriminate].
+        unfold format_of. destruct (zlist_eqb f str_jaspar); [destruct a; discriminate|].
+        destruct (zlist_eqb f str_jaspar16); [discriminate|]. destruct (zlist_eqb f str_transfac); [discriminate|].
+        destruct (zlist_eqb f str_uniprobe); discriminate.
+      - destruct (lookup _ _ _ _ _ st self) as [[]|]; try discriminate.
+        destruct (lazy_take K a id calls k). discriminate.
     Qed.
   End Total.
 
